@@ -109,6 +109,18 @@ Definition cycle (content : str) : str := save (load content).
 Fixpoint cycles (n : nat) (content : str) : str :=
   match n with O => content | S k => cycles k (cycle content) end.
 
+(* ---- vocabulary of the theorems *)
+(* a line without CR / LF *)
+Definition no_crlf (l : str) : bool := forallb (fun c => negb (is_cr c || is_lf c)) l.
+(* a line without any str.splitlines() boundary *)
+Definition no_break (l : str) : bool := forallb (fun c => negb (is_linebreak c)) l.
+(* a text whose only str.splitlines() boundaries are CR and LF (none of VT FF FS GS RS NEL LS PS) *)
+Definition no_exotic (s : str) : bool := forallb (fun c => negb (is_linebreak c) || is_cr c || is_lf c) s.
+(* a config as (line, line end) pairs and its text *)
+Definition text_of (pairs : list (str * str)) : str := concat (map (fun p => fst p ++ snd p) pairs).
+Definition lines_of (pairs : list (str * str)) : list str := map fst pairs.
+Definition is_lf_or_crlf (e : str) : bool := str_eqb e [LF] || str_eqb e [CR; LF].
+
 (* the independent description of "the text split at its line ends" used by the theorems:
    line ends are LF, CRLF and lone CR *)
 Definition spec_lines (s : str) : list str := split_nl (univ_nl s).
